@@ -835,17 +835,17 @@ class Cpt(ImmittanceMixin):
     def oneport(self):
         """Create oneport object."""
 
-        return self.cct.oneport(self.nodes[1].name, self.nodes[0].name)
+        return self.cct.oneport(self.nodes[0].name, self.nodes[1].name)
 
     def thevenin(self):
         """Create Thevenin oneport object."""
 
-        return self.cct.thevenin(self.nodes[1].name, self.nodes[0].name)
+        return self.cct.thevenin(self.nodes[0].name, self.nodes[1].name)
 
     def norton(self):
         """Create Norton oneport object."""
 
-        return self.cct.norton(self.nodes[1].name, self.nodes[0].name)
+        return self.cct.norton(self.nodes[0].name, self.nodes[1].name)
 
     def transfer(self, cpt):
         """Create transfer function for the s-domain voltage across the
